@@ -1357,6 +1357,13 @@ class ktensor:
          [0.5 0.5]
          [0.5 0.5]]
         """
+        if (
+            weight_factor is not None
+            and not (isinstance(weight_factor, str) and weight_factor == "all")
+            and weight_factor not in range(self.ndims)
+        ):
+            assert False, "Parameter 'weight_factor' must be 'all' or in the range of self.ndims"
+
         # when mode is specified, just normalize self.factor_matrices[mode]
         if mode is not None:
             if mode in range(self.ndims):
